@@ -1,6 +1,7 @@
 package harness
 
 import (
+	stdnet "net"
 	"encoding/binary"
 	"errors"
 	"fmt"
@@ -187,7 +188,7 @@ func (t *raceTransport) Address() string { return t.addr }
 
 func TestE6Race(t *testing.T) {
 	rep := NewReport("E6-race")
-	rep.Rule = "real-time stress of a 3-4 node in-process cluster (real file storage, election timeout 150 ms, heartbeat 30 ms, snapshot every 6 entries, messages pushed through the transport's converters) with 4 submitters of all operation types at every node, a membership churner (add non-voter / promote / remove / re-add), a Status+Configuration poller, a lifecycle goroutine (Stop, Start, Restart, Bootstrap on running nodes) — all concurrently for VERIF_SECONDS; built with the race detector: a report is a violation; non-trivial = a call completed; counts = API calls issued"
+	rep.Rule = "real-time stress of a 3-4 node in-process cluster (real file storage, election timeout 150 ms, heartbeat 30 ms, snapshot every 6 entries, messages pushed through the transport's converters) with 4 submitters of all operation types at every node, a membership churner (add non-voter / promote / remove / re-add), a Status+Configuration poller, a lifecycle goroutine (Stop, Start, Restart, Bootstrap on running nodes), two goroutines awaiting one future, and next to the cluster three bundled network transports on loopback with four senders and a shutdown-and-run-again goroutine — all concurrently for VERIF_SECONDS; built with the race detector: a report is a violation; non-trivial = a call completed; counts = API calls issued"
 	defer rep.Write()
 	secs := EnvInt("VERIF_SECONDS", 10)
 	root, _ := os.MkdirTemp(ScratchRoot(), "verif-e6-")
@@ -282,6 +283,81 @@ func TestE6Race(t *testing.T) {
 		_ = c.String()
 		time.Sleep(time.Millisecond)
 	})
+	// one future, two goroutines waiting for it (a caller with a watchdog next to its worker): Await is
+	// public API too
+	worker(seed*100+13, func(rng *rand.Rand) {
+		fut := node(rng).SubmitOperation([]byte("y"), raft.Replicated, 60*time.Millisecond)
+		calls.Add(2)
+		done := make(chan struct{})
+		go func() { fut.Await(); close(done) }()
+		fut.Await()
+		<-done
+	})
+	// the bundled network transport under the same detector (the cluster above talks through an in-process
+	// one): three real transports on loopback, four senders using all three RPCs towards all peers, one
+	// goroutine that shuts a transport down and runs it again (what Stop and Restart of its node do)
+	{
+		var trs []raft.Transport
+		var addrs []string
+		for i := 0; i < 3; i++ {
+			l, err := stdnet.Listen("tcp", "127.0.0.1:0")
+			if err != nil {
+				break
+			}
+			addr := l.Addr().String()
+			l.Close()
+			tr, err := raft.NewTransport(addr)
+			if err != nil {
+				break
+			}
+			tr.RegisterAppendEntriesHandler(func(q *raft.AppendEntriesRequest, r *raft.AppendEntriesResponse) error {
+				r.Term, r.Success = q.Term, true
+				return nil
+			})
+			tr.RegisterRequestVoteHandler(func(q *raft.RequestVoteRequest, r *raft.RequestVoteResponse) error {
+				r.Term = q.Term
+				return nil
+			})
+			tr.RegsiterInstallSnapshotHandler(func(q *raft.InstallSnapshotRequest, r *raft.InstallSnapshotResponse) error {
+				r.Term, r.BytesWritten = q.Term, int64(len(q.Bytes))
+				return nil
+			})
+			if err := tr.Run(); err != nil {
+				break
+			}
+			trs, addrs = append(trs, tr), append(addrs, addr)
+		}
+		if len(trs) == 3 {
+			rep.Hit("bundled-transport-stressed")
+			defer func() {
+				for _, tr := range trs {
+					tr.Shutdown()
+				}
+			}()
+			for k := 0; k < 4; k++ {
+				worker(seed*100+20+int64(k), func(rng *rand.Rand) {
+					from, to := trs[rng.Intn(3)], addrs[rng.Intn(3)]
+					calls.Add(1)
+					switch rng.Intn(3) {
+					case 0:
+						from.SendAppendEntries(to, raft.AppendEntriesRequest{LeaderID: "s", Term: 3, Entries: []*raft.LogEntry{{Index: 1, Term: 3, Data: []byte("abc")}}})
+					case 1:
+						from.SendRequestVote(to, raft.RequestVoteRequest{CandidateID: "s", Term: 3})
+					default:
+						from.SendInstallSnapshot(to, raft.InstallSnapshotRequest{LeaderID: "s", Term: 3, Bytes: []byte("xyz")})
+					}
+				})
+			}
+			worker(seed*100+30, func(rng *rand.Rand) {
+				tr := trs[rng.Intn(3)]
+				calls.Add(2)
+				tr.Shutdown()
+				time.Sleep(time.Duration(rng.Intn(3)) * time.Millisecond)
+				tr.Run()
+				time.Sleep(30 * time.Millisecond)
+			})
+		}
+	}
 	worker(seed*100+12, func(rng *rand.Rand) {
 		n := node(rng)
 		calls.Add(1)
